@@ -385,17 +385,32 @@ Definition req_ok (hm : bytes -> bytes -> bytes) (c : config) (r : req) (o : out
       | _ => true
       end).
 
-(* replay: request j repeats the header list of an admitted request i<j, its timestamp would
+(* replay: request j presents the same proof (same_proof: any wire spelling) as an admitted request i<j, its timestamp would
    still be accepted at j, fewer than capacity admissions strictly in between => not admitted *)
 Fixpoint count_maybe (m : mode) (os : list out) : Z :=
   match os with [] => 0%Z | o :: t => ((if maybe_admitted m o then 1 else 0) + count_maybe m t)%Z end.
+
+(* the same proof, possibly in another wire spelling: one well-formed header each, equal kid, ts
+   and nonce text, and MAC fields that DECODE to the same bytes (the 43-character base64url MAC
+   has two spare bits, so four spellings of its last character are the same MAC) *)
+Definition same_proof (a b : list bytes) : bool :=
+  match a, b with
+  | [ta], [tb] =>
+      match parse ta, parse tb with
+      | Some fa, Some fb =>
+          beqb (f_kid fa) (f_kid fb) && beqb (f_ts fa) (f_ts fb) && beqb (f_nonce fa) (f_nonce fb)
+          && beqb (b64dec (f_mac fa)) (b64dec (f_mac fb))
+      | _, _ => false
+      end
+  | _, _ => false
+  end.
 
 (* [later rs os]: scan the requests after i; [k] = admissions seen so far in between *)
 Fixpoint replay_scan (hm : bytes -> bytes -> bytes) (c : config) (hd : list bytes)
          (k : Z) (rs : list req) (os : list out) : bool :=
   match rs, os with
   | r :: rt, o :: ot =>
-      (if list_eqb beqb (r_hdrs r) hd && valid_proof hm c (unix_s (r_tv r)) hd && (k <? eff_cap c)%Z
+      (if same_proof hd (r_hdrs r) && valid_proof hm c (unix_s (r_tv r)) (r_hdrs r) && (k <? eff_cap c)%Z
        then match admitted (c_mode c) o with Some true => false | _ => true end
        else true)
       && replay_scan hm c hd (if maybe_admitted (c_mode c) o then k + 1 else k)%Z rt ot
